@@ -259,7 +259,7 @@ def emit(seed, tier, with_numpy=False):
                 inputs.append(parts)
                 re.append(parts[0])
             ops = gen_ops(rng, re, 3 + rng.below(10))
-            jobs.append({"kind": "scalar", "class": cname, "inputs": [[fbits(p) for p in ps] for ps in inputs], "ops": bitsify(ops)})
+            jobs.append({"kind": "scalar", "class": cname, "inputs": [[fbits(p) for p in ps] for ps in inputs], "ops": bitsify(ops, Splitmix(rng.next()) if with_numpy else None)})
     # integer exponents outside the i32 range: x ** n must still be the power (the pinned bindings route them to powf).
     # Base 1 and parts chosen so that every part of the result is exact whatever algorithm computes it.
     for n in (2 ** 31, 2 ** 32, 2 ** 32 + 2, -(2 ** 31) - 1, 2 ** 40, -(2 ** 33)):
@@ -313,13 +313,26 @@ def emit(seed, tier, with_numpy=False):
     return jobs
 
 
-def bitsify(ops):
+CKINDS = ["float", "float", "int", "bool", "fraction", "np_float64", "np_float32", "np_int64"]
+
+
+def bitsify(ops, rng=None):
+    """floats travel as bit patterns; scalar-operand operations also get an operand *kind* (a Python object that
+    converts to exactly this float: int, bool, Fraction, numpy scalars) - the reference sees only the float"""
     out = []
     for op in ops:
         o = dict(op)
         if "c" in o:
-            o["c_val"] = o["c"]
-            o["c"] = fbits(o["c"])
+            c = o["c"]
+            o["c_val"] = c
+            o["c"] = fbits(c)
+            if rng is not None and o["op"] in ("add_f", "sub_f", "mul_f", "div_f", "radd_f", "rsub_f", "rmul_f", "rdiv_f"):
+                kind = rng.pick(CKINDS)
+                integral = float(c).is_integer() and abs(c) < 2 ** 31
+                f32_exact = struct.unpack(">f", struct.pack(">f", c))[0] == c
+                if (kind in ("int", "np_int64") and not integral) or (kind == "bool" and c not in (0.0, 1.0)) or (kind == "np_float32" and not f32_exact):
+                    kind = "float"
+                o["ckind"] = kind
         out.append(o)
     return out
 
@@ -331,11 +344,26 @@ def unbits(h):
     return struct.unpack(">d", bytes.fromhex(h))[0]
 
 
+def as_kind(c, kind):
+    """a Python object of the given kind whose float value is exactly c"""
+    if kind == "int":
+        return int(c)
+    if kind == "bool":
+        return bool(c)
+    if kind == "fraction":
+        from fractions import Fraction
+        return Fraction(c)
+    import numpy as np
+    return {"np_float64": np.float64, "np_float32": np.float32, "np_int64": np.int64}[kind](c)
+
+
 def py_step(op, r):
     name = op["op"]
     a = r[op["a"]]
     b = r[op["b"]] if "b" in op else None
     c = unbits(op["c"]) if "c" in op else None
+    if c is not None and op.get("ckind", "float") != "float":
+        c = as_kind(c, op["ckind"])
     if name == "add": return a + b
     if name == "sub": return a - b
     if name == "mul": return a * b
